@@ -63,6 +63,7 @@ func runC12(c *Ctx, r *Report) {
 	c12RegexSplice(c, r)
 	c12PerFieldLoops(c, r)
 	c12NotOwnCollision(c, r)
+	c12LinkSymmetry(c, r)
 }
 
 func c12Ownership(c *Ctx, r *Report) {
@@ -1208,4 +1209,70 @@ func c12NotOwnCollision(c *Ctx, r *Report) {
 		}
 	}
 	r.Floor("R12.10", "unlinks of one of two looked-up entries", n, 2)
+}
+
+// R12.11: the field list stays doubly linked. Wherever a method of Mlrmap
+// makes b the successor of a (a.Next = b, b not nil) it also makes a the
+// predecessor of b (b.Prev = a), and the other way round: a stale back
+// pointer is invisible to every writer (they walk forward) and breaks the
+// next unlink of the neighbour.
+func c12LinkSymmetry(c *Ctx, r *Report) {
+	r.Rule("R12.11", "the field list stays doubly linked: in package mlrval, a function that stores a non-nil entry b into a.Next also stores a into b.Prev (same values, or loads of the same field), and a function that stores a non-nil a into b.Prev also stores b into a.Next — an insertion that forgets the old successor's back pointer leaves a list that reads correctly forwards and loses or cycles fields at the next removal")
+	p := c.Pkg("pkg/mlrval")
+	if p == nil {
+		r.Undecided("R12.11", "pkg/mlrval", "", "package not loaded")
+		return
+	}
+	type link struct {
+		owner, val ssa.Value
+		field      string
+		pos        token.Pos
+	}
+	n := 0
+	for _, fn := range c.ModuleFunctions() {
+		if fn.Pkg == nil || fn.Blocks == nil || fn.Pkg.Pkg != p.Types {
+			continue
+		}
+		var links []link
+		for _, b := range fn.Blocks {
+			for _, in := range b.Instrs {
+				st, ok := in.(*ssa.Store)
+				if !ok {
+					continue
+				}
+				base, name, ok := fieldAddrName(st.Addr)
+				if !ok || (name != "Next" && name != "Prev") {
+					continue
+				}
+				if !strings.HasSuffix(base.Type().String(), "mlrval.MlrmapEntry") {
+					continue
+				}
+				links = append(links, link{base, st.Val, name, st.Pos()})
+			}
+		}
+		k := 0
+		same := func(a, b ssa.Value) bool { return a == b || sameValue(a, b) }
+		for _, l := range links {
+			if kc, ok := l.val.(*ssa.Const); ok && kc.IsNil() {
+				continue
+			}
+			// a value that may be nil through a phi of nil is still a link when not nil
+			n++
+			k++
+			other := "Prev"
+			if l.field == "Prev" {
+				other = "Next"
+			}
+			found := false
+			for _, m := range links {
+				if m.field == other && same(m.owner, l.val) && same(m.val, l.owner) {
+					found = true
+				}
+			}
+			key := fmt.Sprintf("%s: link %s #%d", SSAName(fn), l.field, k)
+			r.Check(found, "R12.11", key, c.Rel(l.pos), "the opposite link is stored too",
+				fmt.Sprintf("%s stores an entry into another entry's %s without storing the opposite %s link between the same two entries: the list is no longer doubly linked, which shows only when the neighbour is unlinked or the list is walked backwards", SSAName(fn), l.field, other))
+		}
+	}
+	r.Floor("R12.11", "non-nil link stores in package mlrval", n, 6)
 }
